@@ -467,8 +467,56 @@ func lastWriteTrial(res *vlib.Result, st *cmStats, api cmAPI, r *vlib.Rand, id s
 	}
 }
 
+// writeOnlyTrial: a packet is written to an address the map has no record of
+// (a late retransmission to a client that has already expired), on a map that
+// is otherwise empty, and nobody asks for that address's queue. The record the
+// write created is idle from then on: after many timeouts it must be gone - a
+// call for the address's queue then yields a fresh, empty queue, not the one
+// still holding the packet.
+func writeOnlyTrial(res *vlib.Result, id string, nBefore int) {
+	res.Eval(1)
+	atomic.AddInt32(&mapsCreated, 1)
+	q := turbotunnel.NewQueuePacketConn(fakeAddr("queue-local"), cmTimeout)
+	rep := cmReplay{Case: id, API: "QueuePacketConn", Trial: "write-only-then-silence", TimeoutMs: ms(cmTimeout)}
+	// optionally the map has seen (and forgotten) other clients before
+	for i := 0; i < nBefore; i++ {
+		b := fakeAddr(fmt.Sprintf("%s-earlier-%d", id, i))
+		ch := q.OutgoingQueue(b)
+		q.WriteTo(mkPkt('E', uint32(i), uint32(nBefore), 24), b)
+		<-ch
+		if _, ok, _ := awaitClosedLong(ch, 30*cmTimeout); !ok {
+			res.Inconcl(id + ": an earlier client's queue was not closed within 30 timeouts")
+			return
+		}
+	}
+	a := fakeAddr(id + "-late")
+	pkt := mkPkt('W', 1, 1, 40)
+	q.WriteTo(append([]byte(nil), pkt...), a)
+	time.Sleep(12 * cmTimeout) // idle for 12 timeouts: eight times the nominal bound
+	ch := q.OutgoingQueue(a)
+	res.Obs("clientmap_write_only_trials", 1)
+	select {
+	case p, ok := <-ch:
+		if ok {
+			rep.Detail = fmt.Sprintf("%d earlier clients had come and gone", nBefore)
+			res.Violatef("clientmap:write-only-queue-kept-beyond-timeout", rep, "QueuePacketConn: %d ms (12 timeouts) after a WriteTo to an address nobody asked about, the map still answers with the queue holding that %d-byte packet: the record was never swept", ms(12*cmTimeout), len(p))
+		}
+	default:
+		res.Distinct(id)
+	}
+}
+
 func runClientMap(res *vlib.Result, root *vlib.Rand) {
 	st := &cmStats{}
+	var wwg sync.WaitGroup
+	for i := 0; i < vlib.Scale(8, 40); i++ {
+		wwg.Add(1)
+		go func(i int) { defer wwg.Done(); writeOnlyTrial(res, fmt.Sprintf("clientmap/write-only/%d", i), i%3) }(i)
+	}
+	defer func() {
+		wwg.Wait()
+		res.RequireObs("clientmap_write_only_trials", 4)
+	}()
 	rounds := vlib.Scale(6, 60)
 	for round := 0; round < rounds; round++ {
 		var wg sync.WaitGroup
